@@ -136,10 +136,10 @@ def stF (w : World) (cfg : Cfg) : Ty → Obj → Option Obj
       match h : iterItems o with
       | Option.none => stLF w cfg (leafFuel w) (.tupleHet ts) o
       | some xs => (stFT w cfg ts xs).map (.coll .tuple)
-  | .map _ kt vt, .dict kvs =>
+  | .map k kt vt, .dict kvs =>
       match stFKV w cfg kt vt kvs with
       | Option.none => Option.none
-      | some r => if hashableL w (keysOf r) then some (.dict (mkDict r)) else Option.none
+      | some r => if hashableL w (keysOf r) then some (mapRes cfg k (mkDict r)) else Option.none
   | .opt _, .none => some .none
   | .opt t, x => stF w cfg t x
   | .wrap _ t, x => stF w cfg t x
